@@ -339,7 +339,7 @@ var needMoreExceptions = map[string]string{
 }
 
 func c06R3(c *Ctx, r *Report, rule string) {
-	r.rule(rule, "need-more propagation: for every call in matcher-reachable code that reads from the connection (or a reader built on it) and returns error e: e is tested or returned, and every return reachable from an edge on which e != nil returns an error deriving from e", 39)
+	r.rule(rule, "need-more propagation: for every call in matcher-reachable code that reads from the connection (or a reader built on it) and returns error e: e is tested or returned, and every return reachable from an edge on which e != nil returns an error deriving from e", 30)
 	mreach := c.matcherReach()
 	usedExc := map[string]bool{}
 	for _, fn := range sortedFuncs(mreach) {
